@@ -47,9 +47,15 @@ def _gridspec(draw, big):
     if src == "mpas":
         mesh = draw(meshgen.voronoi_mesh(6, 16 if big else 10, renumber=False))
     else:
-        fam = draw(sampled_from(["hull", "hull", "latlon", "solid", "tiny"]))
+        fam = draw(sampled_from(["hull", "hull", "latlon", "solid", "tiny", "single"]))
         if fam == "tiny":
             mesh = draw(meshgen.tiny_patch_mesh(micro=True))
+        elif fam == "single":
+            # a grid of one face (its connectivity may be held as a one-dimensional table)
+            m0 = draw(meshgen.hull_mesh(4, 12, partial=True))
+            f0 = m0["faces"][draw(st.integers(0, 50)) % len(m0["faces"])]
+            used = sorted(set(f0))
+            mesh = {"nodes": [m0["nodes"][o] for o in used], "faces": [[used.index(i) for i in f0]], "family": "single-face"}
         elif fam == "hull":
             mesh = draw(meshgen.hull_mesh(4, 20 if big else 10, partial=True))
         elif fam == "latlon":
